@@ -119,6 +119,23 @@ CHECKS = {
                      "the reachable set is one state and the search closes: purity for histories of any length over the alphabet. All ordered pairs and all "
                      "triples over a core run in long-lived processes as a defence against state the key cannot see; C and comma-decimal locale.",
                 note="Argument values outside the alphabet are not covered; libc-internal state other than locale/cwd/stdio is not in the key."),
+    "C19": dict(level="translation_validation", engine="ENUM", ref="4/C19",
+                technique="exhaustive enumeration of one argument stream through the real C library and the real Java implementation (same binary protocol), record-by-record comparison",
+                text="The Java sources and pr_data_java.c are built from the working tree (xraylib.dat per configuration); a JVM driver speaking the xdrv protocol calls "
+                     "every static method with a C counterpart (147 methods incl. the cascade helpers, parser, catalogues, crystal functions) on the same columns as the "
+                     "C driver: the C03 product plus generated formulas and all catalogue entries (quick 1.8e7 tuples, thorough 4.5e8). error <=> exception on every "
+                     "tuple, values rel. 1e-7, objects field by field; every disagreement is re-checked by a single-call replay on both sides.",
+                note="Tuples within 1e-8 of a range decision boundary are don't-care (C tables passed through %.10E, Java's are binary); messages are not compared; "
+                     "quick caps each method at 300k tuples (stratified, seed-shifted)."),
+    "C17": dict(level="model_checking", engine="SCHED", ref="4/C17",
+                technique="preemption-bounded exhaustive schedule enumeration of the real library under a controlled scheduler over compiler-instrumented accesses; conflict (lockset) pass; free-running TSan cross-check",
+                text="The library is compiled with the ThreadSanitizer instrumentation pass and linked with an own runtime that sees every non-stack access and "
+                     "serialises real pthreads with a baton. For each of ~580 harnesses (all pairs of a 28-op colliding alphabet, 2x2 and 3x1 over a core, C and "
+                     "comma locale) a serial pass computes the contested locations (the library has no synchronisation, so one contested location is a data race) and "
+                     "all schedules with at most 2 (thorough 3) preemptions over contested accesses, libc seams, op boundaries and library function entries are "
+                     "enumerated; every completed schedule must reproduce the serial results. The first schedule is replayed for determinism.",
+                note="Sequential consistency (DRF-SC argument); memcpy/memset intrinsics and libc internals are not instrumented - the free-running 16-thread TSan "
+                     "pass (sampled, cross-check only) covers those; more than 3 threads only there."),
 }
 NOT_YET = {}
 ALL = ["C%02d" % i for i in range(1, 21)]
